@@ -130,7 +130,7 @@ func runAPICase(o *hx.Out, f *hx.Flags, k int, r *prng.R, c combo) {
 	if x, ok := m.(*modM); ok && dropCase {
 		x.tick = r.Bool()
 	}
-	idx := uint32(r.Intn(2))
+	idx := baseHeight(r, o)
 	sig := c.level + "/" + c.mode
 	for b := 0; b < nBlocks && !h.dead; b++ {
 		ops := g.blockOps(h.cont, c.level == "module", maxCh)
@@ -194,6 +194,26 @@ func runAPICase(o *hx.Out, f *hx.Flags, k int, r *prng.R, c combo) {
 	if k < len(corpus)+3 {
 		o.Sample(fmt.Sprintf("case %d: %s %d blocks, %d keys in pool, final %d keys", k, sig, nBlocks, len(g.pool), len(h.cont)))
 	}
+}
+
+// baseHeight: the height a history starts at. Heights are parameters of the trie / module API, so a
+// history can straddle the byte boundaries of the stored 4-byte little-endian deactivation height
+// (2^8, 2^16, 2^24) without building that many blocks: collection indices and deactivation heights
+// then differ in more than the lowest byte (seed C11-m8: a bytewise comparison of the encoded height).
+func baseHeight(r *prng.R, o *hx.Out) uint32 {
+	switch r.Weighted([]int{3, 3, 2, 1}) {
+	case 1:
+		o.Count("base:below-2^8")
+		return 256 - uint32(r.Range(1, 8))
+	case 2:
+		o.Count("base:below-2^16")
+		return 65536 - uint32(r.Range(1, 8))
+	case 3:
+		o.Count("base:below-2^24")
+		return 16777216 - uint32(r.Range(1, 8))
+	}
+	o.Count("base:0")
+	return uint32(r.Intn(2))
 }
 
 func pickProbes(r *prng.R, pool [][]byte) [][]byte {
